@@ -1354,15 +1354,9 @@ func (e *executor) icmpPtr(pred string, a, b *Val) smt.Term {
 		var t smt.Term
 		switch {
 		case isNullPtr(pb):
-			t = smt.Eq(pa.Reg, regLit(ridNull))
-			if len(pa.Cands) == 1 {
-				t = smt.BoolLit(pa.Cands[0] == ridNull)
-			}
+			t = e.nullTest(a, 0)
 		case isNullPtr(pa):
-			t = smt.Eq(pb.Reg, regLit(ridNull))
-			if len(pb.Cands) == 1 {
-				t = smt.BoolLit(pb.Cands[0] == ridNull)
-			}
+			t = e.nullTest(b, 0)
 		default:
 			t = smt.And(smt.Eq(pa.Reg, pb.Reg), e.tm.icmp("eq", pa.Off, pb.Off))
 			if len(pa.Cands) == 1 && len(pb.Cands) == 1 && pa.Cands[0] != pb.Cands[0] {
@@ -1440,4 +1434,31 @@ func (e *executor) recordPktStore(st *State, pc, off smt.Term, n int, v *Val) {
 		d = st.writes.depth + 1
 	}
 	st.writes = &factNode{t: smt.Term{S: strconv.Itoa(len(e.pktStores) - 1)}, next: st.writes, depth: d}
+}
+
+// nullTest builds "v == NULL"; for merged pointers it distributes over the
+// ite structure so that the result is a Boolean combination of the merge
+// conditions (e.g. "not found" for a map lookup result), which branch
+// conditions can be decomposed into known facts.
+func (e *executor) nullTest(v *Val, depth int) smt.Term {
+	p := v.P
+	if len(p.Cands) == 1 {
+		return smt.BoolLit(p.Cands[0] == ridNull)
+	}
+	if v.Ite != nil && depth < 16 && v.Ite.A.IsPtr && v.Ite.B.IsPtr {
+		c := v.Ite.C
+		a, b := e.nullTest(v.Ite.A, depth+1), e.nullTest(v.Ite.B, depth+1)
+		switch {
+		case a.IsTrue():
+			return smt.Or(c, b)
+		case a.IsFalse():
+			return smt.And(smt.Not(c), b)
+		case b.IsTrue():
+			return smt.Or(smt.Not(c), a)
+		case b.IsFalse():
+			return smt.And(c, a)
+		}
+		return smt.Ite(c, a, b)
+	}
+	return smt.Eq(p.Reg, regLit(ridNull))
 }
